@@ -69,6 +69,13 @@ func ReexecWithEngineEnv(streams bool) {
 	set("LUNAR_VERSION", "verif")
 	set("LOG_LEVEL", "error")
 	set("LUNAR_ENGINE_FAILSAFE_ENABLED", "false")
+	// policy mode creates the diagnosis fail-safe watcher unconditionally
+	set("DIAGNOSIS_FAILSAFE_MIN_SEC_BETWEEN_CALLS", "3600")
+	set("DIAGNOSIS_FAILSAFE_CONSECUTIVE_N", "3")
+	set("DIAGNOSIS_FAILSAFE_MIN_STABLE_SEC", "10")
+	set("DIAGNOSIS_FAILSAFE_COOLDOWN_SEC", "10")
+	set("DIAGNOSIS_FAILSAFE_HEALTHY_SESSION_RATE", "0.5")
+	set("DIAGNOSIS_FAILSAFE_HEALTHY_MAX_LAST_SESSION_SEC", "100")
 	disc := filepath.Join(root, "discovery.json")
 	must(os.WriteFile(disc, []byte("{}"), 0o644))
 	set("DISCOVERY_STATE_LOCATION", disc)
